@@ -166,6 +166,68 @@ fn run_fd(bytes: &[u8], ctx: &Ctx) -> CaseInfo {
     info
 }
 
+/// Reordering with one large dimension: hundreds of disequalities / goals / clauses / domain values.
+fn run_scale(bytes: &[u8], ctx: &Ctx) -> CaseInfo {
+    use crate::props::scale_mix::{any_program_opts, ScaleKind};
+    let mut s = Source::new(bytes);
+    let (p, kind) = any_program_opts(&mut s, ctx.tier == Tier::Thorough, false);
+    let mut info = CaseInfo::default();
+    let desc = p.show();
+    if std::env::var("PVH_SHOW").is_ok() {
+        eprintln!("SHOW {} {}", kind.label(), desc.chars().take(300).collect::<String>());
+    }
+    info.key = hash_str(&desc);
+    info.class(kind.label());
+    let lim = Limits { max_answers: 5000, budget: 6_000_000 };
+    let base = run::run(&p, Mode::Bfs, lim);
+    if let Some((why, pi)) = oracle::describe_end(&base) {
+        if let Some(pi) = pi {
+            info.fail(format!("C04:panic:{}", pi.key()), format!("{}\n  panicked: {} at {}", desc, pi.message, pi.location));
+            return info;
+        }
+        return CaseInfo { skip: Some(why), ..info };
+    }
+    let u = if kind == ScaleKind::WideDomains { canon::Universe(vec![]) } else { canon::universe(&[&p], &[], 3, 6) };
+    let nvar = if ctx.tier == Tier::Thorough { 4 } else { 2 };
+    let mut variants = vec![];
+    for _ in 0..nvar {
+        let q = oracle::permuted(&p, &mut s, true);
+        if q != p && !variants.contains(&q) {
+            variants.push(q);
+        }
+    }
+    if ctx.want_sample {
+        info.sample = Some(json!({ "program": desc, "answers": base.answers.len(), "reordered_variants": variants.len() }));
+        truncate_sample(&mut info, 400);
+    }
+    for q in &variants {
+        if moved_sharing(&p.body, &q.body) && !base.answers.is_empty() {
+            info.nontrivial = true;
+        }
+        let outq = run::run(q, Mode::Bfs, lim);
+        match &outq.end {
+            End::Panic(pi) => {
+                info.fail(format!("C04:panic:{}", pi.key()), format!("{}\n  panicked: {} at {}", q.show(), pi.message, pi.location));
+                return info;
+            }
+            End::Exhausted => {}
+            _ => continue,
+        }
+        match canon::multiset_cmp(&base.answers, &outq.answers, &u) {
+            Ok(None) | Err(()) => {}
+            Ok(Some(d)) => {
+                let cut = |x: String| if x.len() > 1500 { format!("{} ... ({} chars)", x.chars().take(1500).collect::<String>(), x.len()) } else { x };
+                info.fail(
+                    "C04:answers-differ-after-reordering",
+                    format!("{}\n  reordered: {}\n  only original: {}\n  only reordered: {}", cut(p.show()), cut(q.show()), cut(run::show_answers(&d.only_left)), cut(run::show_answers(&d.only_right))),
+                );
+                return info;
+            }
+        }
+    }
+    info
+}
+
 pub fn def() -> PropertyDef {
     PropertyDef {
         id: "C04",
@@ -174,6 +236,7 @@ pub fn def() -> PropertyDef {
         families: vec![
             Family { name: "tree", max_len: 200, quick: 60_000, thorough: 1_500_000, run: run_tree },
             Family { name: "fd", max_len: 160, quick: 80_000, thorough: 2_000_000, run: run_fd },
+            Family { name: "scale", max_len: 96, quick: 8_000, thorough: 120_000, run: run_scale },
         ],
         fixed: vec![],
         witnesses: vec![],
